@@ -50,7 +50,7 @@ MANIFEST = {
     "full application of the result equates both sides), termination (a fuel exists for every acyclic prior, results are "
     "fuel-monotone), completeness and most-generality (partial: under the hypothesis that no input is linear, i.e. the flag "
     "rule is vacuous). Model tied to ty.py/subst.py on every run by same-input correspondence on the real classes "
-    "(quick 5000 unify cases, thorough 200000) with an independent Robinson unifier as property oracle.",
+    "(quick 5000 unify cases, thorough 400000) with an independent Robinson unifier as property oracle.",
     "level_note": "Trusted: Lean kernel + propext/Classical.choice/Quot.sound; my statement of solutions/acyclicity; the "
     "encoder from guppylang objects to model terms; correspondence is sampling. Two defects fixed in /repo (cyclic result from "
     "an occurs check that ignored the substitution, constants of different type unified); theorems are about the repaired code.",
@@ -449,9 +449,10 @@ def oracle(s, t, sg0):
         oracle.why = robinson.why
         return "fail", None
     oracle.why = "flags"
-    S, T = o_once(th, s), o_once(th, t)
-    assert o_erase(S) == o_erase(T)
-    if flags_agree(S, T, strict=True):
+    # every equation (the goal and the prior's bindings) must hold with the flag rule
+    pairs = [(o_once(th, a), o_once(th, b)) for a, b in eqs]
+    assert all(o_erase(a) == o_erase(b) for a, b in pairs)
+    if all(flags_agree(a, b, strict=True) for a, b in pairs):
         return "ok", th
     ins = []
     for x in [s, t] + [u_ for _, u_ in sg0]:
@@ -459,7 +460,7 @@ def oracle(s, t, sg0):
     robust = all(o_linear(x) == o_linear(o_once(th, x)) for x in ins)
     if not robust:
         return "unknown", th
-    return ("ok" if flags_agree(S, T, strict=False) else "fail"), th
+    return ("ok" if all(flags_agree(a, b, strict=False) for a, b in pairs) else "fail"), th
 
 
 def check_result(s, t, sg0, sg, th, flags_decisive=True):
@@ -829,7 +830,7 @@ def tie(ctx):
     if ctx.replay_in and "case" in ctx.replay_in.get("replay", {}):
         c = ctx.replay_in["replay"]["case"]
         cases.append(("replay", _tup(c["s"]), _tup(c["t"]), [(v, _tup(u_)) for v, u_ in c["sigma0"]]))
-    n = ctx.n(5000, 200000)
+    n = ctx.n(5000, 400000)
     prev_results = []
     built = []
     skipped = 0
@@ -867,7 +868,7 @@ def tie(ctx):
     # ---- substitution / linearity requests
     aux = []  # (kind, line, real, oracle)
     gen2 = Gen(rng, explicit_comptime=False)
-    m = ctx.n(1500, 30000)
+    m = ctx.n(1500, 60000)
     for i in range(m):
         sg = gen2.prior([])
         if not acyclic(sg) or any(has_generic_fn(u_) for _, u_ in sg):
